@@ -129,11 +129,13 @@ class Daemon:
     """One daemon process, stepped line by line."""
 
     def __init__(self, build, workdir, svcs, timeout="1h", modules=("iauth_xquery",), rules=None, logs=None,
-                 step_timeout=20.0, conf_extra="", addr_text=default_addr_text, debug=False):
+                 step_timeout=20.0, conf_extra="", addr_text=default_addr_text, debug=False, raw=False):
         self.build = build
         self.workdir = workdir
         self.svcs = svcs
         self.res = Resolver()
+        self.raw = raw                # C09: records also carry every stdout line of the step, byte for byte
+        self.last_raw = []
         self.addr_text = addr_text
         self.step_timeout = step_timeout
         self.conf_path = os.path.join(workdir, "d.conf")
@@ -196,11 +198,13 @@ class Daemon:
         lines = []
         inuse = None
         in_stats = False
+        self.last_raw = []
         while True:
             ln = self._readline(self.step_timeout)
             if ln is None:
                 self.dead = True
                 return lines, None
+            self.last_raw.append(ln)
             if ln == b"s":
                 break
             if ln.startswith(b"S "):
@@ -442,7 +446,12 @@ class Daemon:
         out = [self.parse_line(l) for l in lines]
         if n is None:
             return {"e": "Crash", "ev": e, "partial": out}
-        return {"e": "S", "ev": e, "o": out, "n": n}
+        rec = {"e": "S", "ev": e, "o": out, "n": n}
+        if self.raw:
+            rec["raw"] = [list(l) for l in self.last_raw]
+            if e.get("e") == "C":
+                rec["ev"] = dict(e, sent=[ord(c) for c in self.addr_text(e["addr"])])
+        return rec
 
 
 def reset_record(svcs, timeout_on, extra=None, cls=None):
